@@ -188,6 +188,19 @@ func TestC16_JWKRoundTrip(t *testing.T) {
 				label = "swapped"
 			}
 		}
+		// readers used for verification must refuse it as well, also right after the valid key was used
+		{
+			msg := []byte("C16 verification message")
+			sig := k.Sign(msg, 0)
+			if verr := jwsutil.VerifySignature(j, sig, msg); verr != nil {
+				t.Fatalf("C16 %s: signature does not verify under the library's JWK: %v", k.Name, verr)
+			}
+			if mustReject {
+				if verr := jwsutil.VerifySignature(&bad, sig, msg); verr == nil {
+					t.Fatalf("C16 %s: modified JWK (%s) accepted by VerifySignature after the valid key was used: %+v", k.Name, label, bad)
+				}
+			}
+		}
 		_, uerr := unmarshalJWK(&bad)
 		rejected := uerr != nil
 		if kt == ktEd25519 && !rejected {
